@@ -19,8 +19,8 @@
        dform r = Ffinite /\ neg r = false /\ sqrt_result_ok (dmode z) x r = true.
      C05_sqrt_1ulp (not attempted): ... -> the result is one of the two
        p-digit neighbours of the correctly rounded root. *)
-From Coq Require Import ZArith.
-From Dec Require Import L3.Decimal L3.Cmp L3.Arith L3.Sqrt L3.SqrtProofs.
+From Coq Require Import ZArith QArith.
+From Dec Require Import Base.QPow L3.Decimal L3.Cmp L3.Arith L3.Convert L3.Float L3.Sqrt L3.SqrtProofs.
 Open Scope Z_scope.
 
 (* Sqrt(±0) = ±0 *)
@@ -52,6 +52,22 @@ Theorem C05_attrs : forall same z x z',
 Proof. exact Sqrt_attrs. Qed.
 Print Assumptions C05_attrs.
 
+(* the exponent split: for finite x >= 0 with exponent b (x = 0.m * 10^b), Sqrt
+   runs the Newton iteration (sqrtInverse) on z4 = x's mantissa with exponent
+   b rem 2, receiver precision and mode — a value in [0.01, 10) with
+   x = z4 * 10^(2 * (b quot 2)) — and re-attaches b quot 2 with SetMantExp.
+   (`same = true` models z and x being the same variable.) *)
+Theorem C05_exponent : forall same z x,
+  WF x -> dform x = Ffinite -> neg x = false -> (same = true -> z = x) ->
+  exists z4,
+    Sqrt same z x = bindR (sqrtInverse z4) (fun r => SetMantExp true r r (Z.quot (exp x) 2)) /\
+    mant z4 = mant x /\ exp z4 = Z.rem (exp x) 2 /\ dform z4 = Ffinite /\ neg z4 = false /\
+    prec z4 = sqrt_prec z x /\ dmode z4 = dmode z /\
+    (mag x == mag z4 * Qpow10 (2 * Z.quot (exp x) 2))%Q /\
+    (scaled 1 (-2) <= mag z4)%Q /\ (mag z4 < scaled 1 1)%Q.
+Proof. exact Sqrt_exponent. Qed.
+Print Assumptions C05_exponent.
+
 (* K1: x = 773288910932290629180064891113.1, 30 digits, ToNearestEven: the model
    returns a canonical 30-digit value that fails the integer-square test of
    correct rounding *)
@@ -60,6 +76,19 @@ Theorem C05_sqrt_correct_refuted :
   dform k1_r = Ffinite /\ prec k1_r = 30 /\ sqrt_result_ok ToNearestEven k1_x k1_r = false.
 Proof. exact Sqrt_not_correctly_rounded. Qed.
 Print Assumptions C05_sqrt_correct_refuted.
+
+(* K1 on a perfect square ("perfect squares give their exact root in every
+   mode" fails): Sqrt(9) is 2.999 in a 4-digit ToZero receiver and
+   3.000000000000000000000000000000001 in a 34-digit ToPositiveInf receiver *)
+Theorem C05_perfect_square_refuted :
+  Sqrt false (mkDec nil 0 4 ToZero Exact Fzero false) nine = OkR k1_sq_r /\
+  mant k1_sq_r = (2999000000000000000 :: nil)%list /\ exp k1_sq_r = 1 /\
+  sqrt_result_ok ToZero nine k1_sq_r = false /\
+  Sqrt false (mkDec nil 0 34 ToPositiveInf Exact Fzero false) nine = OkR k1_sq_r' /\
+  mant k1_sq_r' = (10000 :: 3000000000000000000 :: nil)%list /\ exp k1_sq_r' = 1 /\ prec k1_sq_r' = 34 /\
+  sqrt_result_ok ToPositiveInf nine k1_sq_r' = false.
+Proof. exact Sqrt_perfect_square_not_exact. Qed.
+Print Assumptions C05_perfect_square_refuted.
 
 (* non-vacuity: the decision procedure accepts correctly rounded roots and
    rejects their neighbours; the model computes sqrt(4) = 2 and sqrt(2) *)
